@@ -1,6 +1,7 @@
 package relay
 
 import (
+	"os"
 	"bytes"
 	"crypto/sha256"
 	"encoding/json"
@@ -163,6 +164,15 @@ func (s *Sys) deliverRecv(dst *world.Chain, signer world.Account, msgs []sdk.Msg
 	return "recv " + strings.Join(obs, ","), class
 }
 
+// relayerBalances sums the fee-token balances of every account that may relay.
+func (s *Sys) relayerBalances(c *world.Chain, t *transfer) int64 {
+	n := s.feeBalance(c, t, c.Accounts["r1"]).Int64() + s.feeBalance(c, t, c.Accounts["r2"]).Int64()
+	if a, ok := c.Accounts["tss"]; ok {
+		n += s.feeBalance(c, t, a).Int64()
+	}
+	return n
+}
+
 func sortedCopy(in []string) []string {
 	out := append([]string{}, in...)
 	for i := range out {
@@ -212,7 +222,7 @@ func (s *Sys) deliverAck(src *world.Chain, signer world.Account, msgs []sdk.Msg,
 	var relayerBalPre, senderPre int64
 	var statusPre uint8
 	if t != nil && p.SrcChain == src.Name {
-		relayerBalPre = s.feeBalance(src, t, src.Accounts["r1"]).Int64() + s.feeBalance(src, t, src.Accounts["r2"]).Int64()
+		relayerBalPre = s.relayerBalances(src, t)
 		statusPre = src.AckStatus(p.DstChain, p.Sequence)
 		senderPre = s.senderHoldings(src, t)
 	}
@@ -231,6 +241,9 @@ func (s *Sys) deliverAck(src *world.Chain, signer world.Account, msgs []sdk.Msg,
 		class += " rejected"
 		if len(d) > 0 {
 			add("C05", "rejected-ack-changed-state", fmt.Sprintf("ack %s on %s rejected (%s) but changed %v", what, short[src.Name], r.Log, d))
+		}
+		if os.Getenv("VERIF_DEBUG") != "" {
+			fmt.Println("DEBUG ack rejected:", r.Log)
 		}
 		return "ack rejected", class
 	}
@@ -256,6 +269,10 @@ func (s *Sys) deliverAck(src *world.Chain, signer world.Account, msgs []sdk.Msg,
 	ha := sha256.Sum256(am.Acknowledgement)
 	if dst == nil {
 		add("C02", "ack-accepted-from-unknown-chain", what)
+	} else if s.tss(src.Name, dst.Name) {
+		if am.Signer != src.Accounts["tss"].Acc.String() {
+			add("C06", "tss-secured-ack-accepted-from-another-signer", fmt.Sprintf("ack %s on %s signed by %s", what, short[src.Name], am.Signer))
+		}
 	} else {
 		ver := int64(am.ProofHeight.RevisionHeight) - 1
 		truth := dst.StoreAt(host.PacketAcknowledgementKey(p.SrcChain, p.DstChain, p.Sequence), ver)
@@ -278,7 +295,7 @@ func (s *Sys) deliverAck(src *world.Chain, signer world.Account, msgs []sdk.Msg,
 		if statusPre != 0 || statusPost != wantStatus {
 			add("C05", "ack-status-not-recorded-once", fmt.Sprintf("ack %s code %d: ackStatus %d -> %d, want 0 -> %d", what, a.Code, statusPre, statusPost, wantStatus))
 		}
-		relayerBalPost := s.feeBalance(src, t, src.Accounts["r1"]).Int64() + s.feeBalance(src, t, src.Accounts["r2"]).Int64()
+		relayerBalPost := s.relayerBalances(src, t)
 		if relayerBalPost-relayerBalPre != t.Fee {
 			add("C05", "relayer-fee-not-paid-exactly-once", fmt.Sprintf("ack %s: relayers gained %d, fee was %d", what, relayerBalPost-relayerBalPre, t.Fee))
 		}
